@@ -72,10 +72,22 @@ def tocGen (ix : Name) (n : Name) : Option Nat :=
     | none => none
     | some g => some (digitsVal 0 g)
 
-/-- `TOC._segment_pattern(indexname).match(name)`: `(<ix>_[0-9a-z]+)[.][A-Za-z0-9_.]+`, anchored
-    at the start only; returns group(1), the segment id.  `[0-9a-z]+` is greedy and the next
-    character must be a dot, which is not in the class, so no backtracking is possible. -/
+/-- `TOC._segment_pattern(indexname).match(name)`: `(<ix>_[0-9a-z]+)[.]`, anchored at the start
+    only; returns group(1), the segment id.  (As repaired in round 3: the pattern used to demand an
+    extension from `[A-Za-z0-9_.]+`, which the column file of a field whose name starts with
+    another character does not have — see `C02.segFiles_segOf`.)  `[0-9a-z]+` is greedy and the
+    next character must be a dot, which is not in the class, so no backtracking is possible. -/
 def segOf (ix : Name) (n : Name) : Option Name :=
+  match stripPrefix (ix ++ ['_']) n with
+  | none => none
+  | some rest =>
+    let sid := rest.takeWhile isSegIdChar
+    match sid, rest.dropWhile isSegIdChar with
+    | _ :: _, '.' :: _ => some (ix ++ '_' :: sid)
+    | _, _ => none
+
+/-- the pattern before the round-3 repair: `(<ix>_[0-9a-z]+)[.][A-Za-z0-9_.]+` -/
+def segOfOld (ix : Name) (n : Name) : Option Name :=
   match stripPrefix (ix ++ ['_']) n with
   | none => none
   | some rest =>
